@@ -1,24 +1,172 @@
-"""C05 -- execution is total and closed."""
+"""C05 -- execution is total and closed: no opcode, state or address ever raises.
+
+Lean side (Py65.Props.C05): undeclared opcodes change only PC (and not the cycle counter) on every
+device; well-formedness is preserved by irq/nmi/reset and by every opcode whose handler theorem is
+proved (C01-C03), so registers stay in the byte, PC in the address space.
+Here: the real devices on (1) a real list of 2^16 cells (8-bit devices), (2) ObservableMemory
+(all devices), (3) a bounds-checking memory that raises on any address outside [0, 2^AW) or any
+stored value outside the byte - all 3 x 256 opcode bytes, PCs at the top of memory, pointers and
+vectors at the top, short step/irq/nmi/reset histories, decimal mode included."""
+import json
+import multiprocessing
+import random
+
+import common
 import cpu_props
+from common import DEVNAMES, Case, bg, device_classes, gen_case, widths
 
 ID = 'C05'
 LEAN_MODULES = []
 NAMESPACES = []
 LEVEL = 'proof'
-RULE = ('all 3x256 opcode bytes x boundary-biased states x short step/irq/nmi/reset histories; every declared opcode x boundary-biased states (registers, operands, pointers and PC aimed at page/wrap boundaries); distinct = distinct (opcode, register-class, pc-quadrant, touched-cell-count) signatures of executions that ran')
+TRUSTED = ['Spec.Cpu (oracle of the closure lemmas)', 'translator py2lean, validated every run',
+           'Python list / ObservableMemory semantics for in-range indices']
+ASSUMPTIONS = ['closure (registers/PC in range) is proved for undeclared opcodes, irq/nmi/reset and the opcodes covered by C01-C03; "touches only in-range addresses" is carried by the bounds-checking-memory runs and C12',
+               '65Org16: opcode cell in 0..255 (the property quantifies over opcode BYTES 0-255)']
+RULE = ('3 devices x 256 opcode bytes x boundary-biased states x memory kinds {list, ObservableMemory, '
+        'bounds-checking}; short histories of step/irq/nmi/reset; distinct = (device, opcode, memory kind, '
+        'pc class, op sequence) signatures')
 
 
 def _opcodes(dev, modes):
     return list(range(256))
 
 
-SPEC = dict(module='props.c05', devs=['6502', '65C02', '65Org16'], opcodes=_opcodes, aspects={'raise'}, mode='history',
-            n_quick=40, n_thorough=1500, decimal=True)
+SPEC = dict(module='props.c05', devs=['6502', '65C02', '65Org16'], opcodes=_opcodes, aspects={'raise'},
+            mode='history', n_quick=24, n_thorough=800, decimal=True)
+
+
+class BoundsMem(object):
+    def __init__(self, seed, W, AW, ov):
+        self.seed, self.W, self.top, self.bm = seed, W, 1 << AW, (1 << W) - 1
+        self.cells = dict(ov)
+
+    def __getitem__(self, a):
+        if not isinstance(a, int) or not (0 <= a < self.top):
+            raise IndexError('address %r outside the address space' % (a,))
+        v = self.cells.get(a)
+        return bg(self.seed, self.W, a) if v is None else v
+
+    def __setitem__(self, a, v):
+        if not isinstance(a, int) or not (0 <= a < self.top):
+            raise IndexError('address %r outside the address space' % (a,))
+        if not isinstance(v, int) or not (0 <= v <= self.bm):
+            raise ValueError('value %r does not fit in a byte' % (v,))
+        self.cells[a] = v
+
+
+class TrackList(list):
+    """a real list (IndexError semantics of list) that remembers which cells were written"""
+    def __init__(self, it):
+        list.__init__(self, it)
+        self.dirty = []
+
+    def __setitem__(self, a, v):
+        self.dirty.append(a)
+        list.__setitem__(self, a, v)
+
+
+def run_one(classes, case, kind, shared):
+    from py65.memory import ObservableMemory
+    W, AW = widths(case.dev)
+    if kind == 'bounds':
+        mem = BoundsMem(case.seed, W, AW, case.ov)
+    else:
+        size = 0x10000 if W == 8 else 0x40000
+        base = shared.get((size, W))
+        if base is None:
+            base = TrackList(bg(7, W, a) for a in range(size))
+            shared[(size, W)] = base
+        for a in base.dirty:
+            list.__setitem__(base, a, bg(7, W, a))
+        base.dirty = []
+        for a, v in case.ov.items():
+            if 0 <= a < size:
+                list.__setitem__(base, a, v)
+                base.dirty.append(a)
+        mem = base if kind == 'list' else ObservableMemory(subject=base, addrWidth=AW)
+    try:
+        mpu = classes[case.dev](memory=mem, pc=case.startpc)
+        mpu.a, mpu.x, mpu.y, mpu.sp, mpu.p, mpu.pc = case.a, case.x, case.y, case.sp, case.p, case.pc
+        if hasattr(mpu, 'waiting'):
+            mpu.waiting = bool(case.waiting)
+        bm, am = (1 << W) - 1, (1 << AW) - 1
+        for i, op in enumerate(case.ops):
+            if op == 'step' and not getattr(mpu, 'waiting', False) and not (0 <= mem[mpu.pc & (0x3ffff if (W == 16 and kind != 'bounds') else am)] <= 255):
+                break
+            getattr(mpu, op)()
+            for r in ('a', 'x', 'y', 'sp', 'p'):
+                v = getattr(mpu, r)
+                if not (0 <= v <= bm):
+                    return 'after op %d (%s): register %s = %r outside the byte' % (i, op, r, v)
+            if not (0 <= mpu.pc <= am):
+                return 'after op %d (%s): pc = %r outside the address space' % (i, op, mpu.pc)
+    except Exception as ex:
+        return 'raised %s: %s' % (type(ex).__name__, ex)
+    return None
+
+
+def _worker(args):
+    dev, opcodes, per, seed, quick = args
+    classes = device_classes()
+    modes = classes[dev].disassemble
+    rng = random.Random(seed)
+    cases = cpu_props.make_cases(rng, dev, modes, opcodes, per, 'history', True)
+    W, AW = widths(dev)
+    shared = {}
+    out = dict(n=0, findings=[], sig=set())
+    kinds = ['bounds', 'obs'] + (['list'] if W == 8 else [])
+    for c in cases:
+        if W == 16:
+            c.waiting = False
+        for kind in kinds:
+            out['n'] += 1
+            f = run_one(classes, c, kind, shared)
+            out['sig'].add((dev, c.ov.get(c.pc), kind, c.pc >> (AW - 2), tuple(c.ops)))
+            if f:
+                opc = c.ov.get(c.pc)
+                out['findings'].append(dict(
+                    key=dict(dev=dev, opcode=opc, aspect='raise', memory=kind),
+                    what='%s opcode $%02x on %s memory: %s' % (dev, opc or 0, kind, f),
+                    replay=dict(case=c.to_json(), memory=kind)))
+    out['sig'] = list(out['sig'])
+    return out
 
 
 def explore(ctx):
+    # generated-model validation + Spec differential for the `raise` aspect (total RecMem)
     cpu_props.explore(ctx, SPEC)
+    quick = ctx.quick()
+    per = 6 if quick else 300
+    jobs = []
+    k = 0
+    for dev in DEVNAMES:
+        for i in range(4 if quick else 16):
+            chunk = list(range(256))[i::(4 if quick else 16)]
+            jobs.append((dev, chunk, per, ctx.seed * 7919 + k, quick))
+            k += 1
+    with multiprocessing.Pool(min(16, len(jobs))) as pool:
+        res = pool.map(_worker, jobs)
+    n = sum(r['n'] for r in res)
+    sig = set()
+    for r in res:
+        sig |= set(map(tuple, r['sig']))
+        ctx.findings += r['findings']
+    ctx.stats['evaluations'] += n
+    ctx.stats['distinct_nontrivial'] += len(sig)
+    ctx.stats.setdefault('distribution', {})['memory_kind_runs'] = n
+    ctx.note('memory-kind runs: %d (list / ObservableMemory / bounds-checking), findings so far %d' % (n, len(ctx.findings)))
 
 
 def replay(ctx, path):
+    obj = json.load(open(path))
+    f = obj.get('finding', {})
+    rp = f.get('replay', {})
+    if 'memory' in rp:
+        c = Case.from_json(rp['case'])
+        r = run_one(device_classes(), c, rp['memory'], {})
+        print('case   :', c.line('cpu'))
+        print('memory :', rp['memory'])
+        print('result :', r or 'no exception, registers in range')
+        return 1 if r else 0
     return cpu_props.replay(ctx, path)
